@@ -344,6 +344,9 @@ func heDrawPlan(rt *rapid.T, cfg string) *hePlan {
 				minChunk = min(minChunk, k)
 			}
 			bcap := min(reqCap, minChunk*1500)
+			if heAvoid("-frame_cap") {
+				bcap = reqCap // reproduces the flood-protection observation (see the report)
+			}
 			q.body = min(vs.SizeBiased(c, bcap, 1, 4096, 16384, 65535, 65536), bcap)
 			if vs.Pct(c, 50) && q.body > 0 {
 				q.declLen = int64(q.body)
@@ -616,11 +619,11 @@ type heRun struct {
 	faults   int
 	okResp   int
 
-	monAB, monBA *vmParser
+	monAB, monBA *heScan
 	ledAB, ledBA heLedger
 
 	// select-race detection (see check): server frames not yet delivered
-	pendBA  []*vmFrame
+	pendBA  []*heFrame
 	prevBA  int64
 	raced   bool
 	cEnded  map[uint32]bool // streams on which the client has written END_STREAM
@@ -982,7 +985,11 @@ func (r *heRun) caller(i int) func(tk *vs.Task) {
 		}
 		defer res.Body.Close()
 		// body
-		buf := make([]byte, 1<<16)
+		bufLen := 1
+		for _, k := range q.readSizes {
+			bufLen = max(bufLen, min(k, 1<<16))
+		}
+		buf := make([]byte, bufLen)
 		var total int64
 		nread := 0
 		var rerr error
@@ -1089,6 +1096,9 @@ func (r *heRun) caller(i int) func(tk *vs.Task) {
 		r.okResp++
 		r.mu.Unlock()
 		vs.G.Inc("probe.exchange_complete")
+		if total >= 64<<10 {
+			vs.G.Inc("probe.resp_body_ge_64k")
+		}
 		tk.Step("close")
 		res.Body.Close()
 	}
@@ -1161,7 +1171,13 @@ func (r *heRun) handler(w http.ResponseWriter, req *http.Request) {
 	}
 	w.Header().Set("Content-Type", "application/octet-stream")
 
-	buf := make([]byte, 1<<16)
+	bufLen := 1
+	for _, op := range q.ops {
+		if op.kind == "read" || op.kind == "readall" {
+			bufLen = max(bufLen, min(op.n, 1<<16))
+		}
+	}
+	buf := make([]byte, bufLen)
 	var respOff int64
 	sawEOF := false
 	readOnce := func(n int) error {
@@ -1199,6 +1215,9 @@ func (r *heRun) handler(w http.ResponseWriter, req *http.Request) {
 			}
 			if q.hasBody {
 				vs.G.Inc("probe.req_body_complete")
+				if q.body >= 64<<10 {
+					vs.G.Inc("probe.req_body_ge_64k")
+				}
 			}
 		} else if err != nil && err != io.EOF && !r.affected(idx) {
 			r.setViol(vs.Violf("C14", "request_body_error", "req:read_error", "request %d: reading the request body failed after %d of %d bytes although no fault touched it: %v", idx, total, q.body, err))
@@ -1360,7 +1379,7 @@ func (l *heLedger) init() {
 // onFrame: f was written by the sender of this direction; peer is the ledger
 // of the opposite direction (whose SETTINGS / WINDOW_UPDATE frames grant credit
 // to this one).
-func heWire(dir string, f *vmFrame, mine, peer *heLedger) *vs.Violation {
+func heWire(dir string, f *heFrame, mine, peer *heLedger) *vs.Violation {
 	prop := "C08"
 	if dir == "c2s" {
 		prop = "C09"
@@ -1371,7 +1390,7 @@ func heWire(dir string, f *vmFrame, mine, peer *heLedger) *vs.Violation {
 			return nil
 		}
 		// limits the sender of this frame advertises constrain the OTHER direction
-		for _, s := range vmSettings(f.Payload) {
+		for _, s := range heSettings(f.Payload) {
 			switch s.ID {
 			case SettingInitialWindowSize:
 				peer.iw = int64(s.Val)
@@ -1412,7 +1431,7 @@ func heWire(dir string, f *vmFrame, mine, peer *heLedger) *vs.Violation {
 			vs.G.Inc("probe.hpack_table_size_update_" + dir)
 		}
 	case FrameData:
-		flow := int64(len(f.Payload))
+		flow := int64(f.Len)
 		if flow > 16384 {
 			vs.G.Inc("probe.data_frame_gt_16k_" + dir)
 		}
@@ -1460,17 +1479,15 @@ func (r *heRun) check() *vs.Violation {
 		return vs.Violf("C14", "panic", "srv:serve_panic", "panic on the server's connection goroutine: %v", r.srvPanic)
 	}
 	// server frames first: credit they grant was written before the client used it
-	var fsBA, fsAB []*vmFrame
-	for f := r.monBA.next(); f != nil; f = r.monBA.next() {
-		fsBA = append(fsBA, f)
+	fsBA, fsAB := r.monBA.next(), r.monAB.next()
+	for _, f := range fsBA {
 		if f.Type == FrameRSTStream {
 			if _, ok := r.ledBA.rstStep[f.SID]; !ok {
 				r.ledBA.rstStep[f.SID] = f.Step
 			}
 		}
 	}
-	for f := r.monAB.next(); f != nil; f = r.monAB.next() {
-		fsAB = append(fsAB, f)
+	for _, f := range fsAB {
 		if f.Type == FrameHeaders {
 			r.ledAB.hdrs[f.SID]++
 		}
@@ -1500,7 +1517,7 @@ func (r *heRun) check() *vs.Violation {
 	// reproducible: they are excluded from the distinct-trace evidence
 	// (probe.select_race_run).
 	for _, f := range fsAB {
-		if (f.Type == FrameData && f.Flags&FlagDataEndStream != 0) || (f.HdrDone && f.HdrEndStr) {
+		if f.endStream() {
 			r.cEnded[f.SID] = true
 		}
 	}
@@ -1554,26 +1571,63 @@ func heScheduler(name string) func() WriteScheduler {
 	return nil
 }
 
-// heBounds tracks the frame boundaries of one direction from the bytes as they
-// are written, so that delivery hints depend only on frame lengths, never on
-// frame contents (header blocks are encoded in map order by the Transport).
-// All methods run under the link's mutex (tap and split hint are called there).
-type heBounds struct {
+// heFrame is one frame as seen on the wire (payload captured up to 128 bytes;
+// DATA payloads are not kept).
+type heFrame struct {
+	Type    FrameType
+	Flags   Flags
+	SID     uint32
+	Len     int
+	Payload []byte
+	End     int64 // offset one past the frame's last byte in the direction's stream
+	Step    int   // scheduler step at which the frame header was written
+}
+
+func (f *heFrame) String() string {
+	return fmt.Sprintf("%v(sid=%d flags=%#x len=%d)", f.Type, f.SID, uint8(f.Flags), f.Len)
+}
+
+func (f *heFrame) endStream() bool {
+	return (f.Type == FrameData || f.Type == FrameHeaders) && f.Flags&FlagDataEndStream != 0 // same bit 0x1
+}
+
+// heScan splits one direction's byte stream into frames as the bytes are
+// written (its own 9-byte header parser), and proposes delivery split points
+// that depend only on frame lengths, never on frame contents (header blocks are
+// encoded in map order by the Transport). write and hint run under the link's
+// mutex (tap and split hint are called there); next runs on the scheduler
+// goroutine at quiescent points.
+type heScan struct {
+	step    *int
 	written int64
 	preface int64 // bytes of client preface still to skip
 	nh      int   // bytes of the current frame header seen so far
-	hdr     [3]byte
-	skip    int64   // bytes of the current frame (rest of header + payload) still to come
-	starts  []int64 // absolute offsets of frame starts not yet fully delivered
+	hdr     [9]byte
+	cur     *heFrame // frame whose payload is being captured / skipped
+	want    int      // payload bytes still to capture
+	skip    int64    // payload bytes still to skip after the capture
+	starts  []int64  // absolute offsets of frame starts not yet fully delivered
+	out     []*heFrame
 }
 
-func (t *heBounds) write(b []byte) {
+func (t *heScan) write(b []byte) {
 	for len(b) > 0 {
 		if t.preface > 0 {
 			k := min(int64(len(b)), t.preface)
 			t.preface -= k
 			t.written += k
 			b = b[k:]
+			continue
+		}
+		if t.want > 0 {
+			k := min(len(b), t.want)
+			t.cur.Payload = append(t.cur.Payload, b[:k]...)
+			t.want -= k
+			t.written += int64(k)
+			b = b[k:]
+			if t.want == 0 {
+				t.out = append(t.out, t.cur)
+			}
 			continue
 		}
 		if t.skip > 0 {
@@ -1586,19 +1640,39 @@ func (t *heBounds) write(b []byte) {
 		if t.nh == 0 {
 			t.starts = append(t.starts, t.written)
 		}
-		t.hdr[t.nh] = b[0]
-		t.nh++
-		t.written++
-		b = b[1:]
-		if t.nh == 3 {
-			t.skip = 6 + (int64(t.hdr[0])<<16 | int64(t.hdr[1])<<8 | int64(t.hdr[2]))
+		k := min(len(b), 9-t.nh)
+		copy(t.hdr[t.nh:], b[:k])
+		t.nh += k
+		t.written += int64(k)
+		b = b[k:]
+		if t.nh == 9 {
 			t.nh = 0
+			l := int(t.hdr[0])<<16 | int(t.hdr[1])<<8 | int(t.hdr[2])
+			f := &heFrame{Type: FrameType(t.hdr[3]), Flags: Flags(t.hdr[4]), Len: l, Step: *t.step,
+				SID: (uint32(t.hdr[5])<<24 | uint32(t.hdr[6])<<16 | uint32(t.hdr[7])<<8 | uint32(t.hdr[8])) & 0x7fffffff,
+				End: t.written + int64(l)}
+			t.cur = f
+			if f.Type != FrameData {
+				t.want = min(l, 128)
+			}
+			t.skip = int64(l - t.want)
+			if t.want == 0 {
+				t.out = append(t.out, f)
+			}
 		}
 	}
 }
 
+// next returns the frames whose headers (and captured payload) have been written
+// since the last call.
+func (t *heScan) next() []*heFrame {
+	out := t.out
+	t.out = nil
+	return out
+}
+
 // hint proposes chunk sizes that end inside frame headers and at frame boundaries.
-func (t *heBounds) hint(inflight []byte) []int {
+func (t *heScan) hint(inflight []byte) []int {
 	delivered := t.written - int64(len(inflight))
 	for len(t.starts) > 1 && t.starts[1] <= delivered {
 		t.starts = t.starts[1:]
@@ -1616,6 +1690,15 @@ func (t *heBounds) hint(inflight []byte) []int {
 		add(st - delivered)     // end of the previous frame
 		add(st - delivered + 1) // one byte into the header
 		add(st - delivered + 9) // exactly the header
+	}
+	return out
+}
+
+func heSettings(p []byte) []Setting {
+	var out []Setting
+	for len(p) >= 6 {
+		out = append(out, Setting{ID: SettingID(uint16(p[0])<<8 | uint16(p[1])), Val: uint32(p[2])<<24 | uint32(p[3])<<16 | uint32(p[4])<<8 | uint32(p[5])})
+		p = p[6:]
 	}
 	return out
 }
@@ -1647,7 +1730,7 @@ func heRunOnce(t *testing.T, rt *rapid.T, cfg string) {
 	for _, name := range []string{"probe.continuation_c2s", "probe.continuation_s2c", "probe.req_trailers_checked", "probe.resp_trailers_checked",
 		"probe.req_eof_with_data", "probe.rst_no_error_s2c", "probe.hpack_table_size_update_c2s", "probe.hpack_table_size_update_s2c",
 		"probe.stream_window_exhausted_c2s", "probe.stream_window_exhausted_s2c", "probe.data_frame_gt_16k_c2s", "probe.exchange_complete",
-		"probe.req_body_complete", "probe.req_headers_checked", "probe.resp_headers_checked"} {
+		"probe.req_body_complete", "probe.req_headers_checked", "probe.resp_headers_checked", "probe.req_body_ge_64k", "probe.resp_body_ge_64k"} {
 		vs.G.Add(name, 0)
 	}
 	deadlock := vs.Bubble(t, func() {
@@ -1660,20 +1743,17 @@ func heRunOnce(t *testing.T, rt *rapid.T, cfg string) {
 		}
 		r.conn = vs.NewStreamConn(sim, "h2")
 		r.conn.DeliverWeight = 4
-		bAB, bBA := &heBounds{preface: int64(len(ClientPreface))}, &heBounds{}
-		r.conn.SplitHintAB = bAB.hint
-		r.conn.SplitHintBA = bBA.hint
+		r.monAB = &heScan{step: &r.step, preface: int64(len(ClientPreface))}
+		r.monBA = &heScan{step: &r.step}
+		r.conn.SplitHintAB = r.monAB.hint
+		r.conn.SplitHintBA = r.monBA.hint
 		if p.boundBA > 0 {
 			r.conn.BoundBA(p.boundBA) // never on the client->server direction (DESIGN 3.3)
 		}
-		r.monAB = newVMParser(true, &r.step)
-		r.monBA = newVMParser(false, &r.step)
-		r.monAB.allowTableSize(1 << 20)
-		r.monBA.allowTableSize(1 << 20)
 		r.ledAB.init()
 		r.ledBA.init()
-		r.conn.TapAB(func(b []byte) { r.monAB.write(b); bAB.write(b) })
-		r.conn.TapBA(func(b []byte) { r.monBA.write(b); bBA.write(b) })
+		r.conn.TapAB(r.monAB.write)
+		r.conn.TapBA(r.monBA.write)
 
 		srv := &Server{MaxConcurrentStreams: p.maxStreams, MaxUploadBufferPerConnection: p.upConn,
 			MaxUploadBufferPerStream: p.upStream, MaxReadFrameSize: p.srvMaxRead,
